@@ -12,5 +12,7 @@ MCObj == [ a    |-> V("A", <<"A">>, {"x", "y"}, "variant"),
            b    |-> V("B", <<"B">>, {"x"}, "variant"),
            c    |-> V("C", <<"C">>, {"y"}, "variant"),
            ca   |-> V("A", <<"C", "A">>, {"y"}, "layered-product"),
-           at   |-> V("AT", <<"A", "T">>, {"x"}, "variant") ]        \* dashed top-level UID, childless
+           at   |-> V("AT", <<"A", "T">>, {"x"}, "variant"),         \* dashed top-level UID, childless
+           abx  |-> V("B", <<"AB">>, {"x"}, "addon"),                \* misaligned only by a missing dash
+           abt  |-> V("BT", <<"A", "B", "T">>, {"x"}, "addon") ]     \* misaligned only by an extra dash        \* dashed top-level UID, childless
 =============================================================================
